@@ -19,6 +19,7 @@ func driveDiag(args []string) int {
 	outp := op.str("out", "diags.ndjson")
 	max := op.int("max", 3000)
 	stride := op.int("stride", 1)
+	seed := op.int("seed", 1)
 	f, err := os.Create(outp)
 	if err != nil {
 		fmt.Fprintln(os.Stderr, err)
@@ -51,7 +52,7 @@ func driveDiag(args []string) int {
 			return
 		}
 		seen++
-		if seen%stride != 0 {
+		if !thinKeep(src, stride, seed) {
 			return
 		}
 		var diags []map[string]any
